@@ -15,7 +15,8 @@ LEVEL = ("Static structural conditions on the adaptation schedule: the estimator
          "when the collector marked it good, and that mark depends only on the divergence flag and the trajectory index (R5). Off-by-one arithmetic of "
          "the schedule and the 'older than two windows' count are not decided."
          " Added: only switch() removes elements from the estimation-window deques (R2); estimator lanes are judged on the inlined form (R4)."
-         " Added (round 4): the transformation is frozen in the final window on every path (R8 = C06-R3 analysis, path-sensitive through phase enums and sub-structs of the strategy).")
+         " Added (round 4): the transformation is frozen in the final window on every path (R8 = C06-R3 analysis, path-sensitive through phase enums and sub-structs of the strategy)."
+         " Added (round 5): the step-size search re-run at the first transformation change restarts the estimator from what it found (R9 = C07-R5/R6 analysis).")
 EXPLANATION = "Control-dependence edge relations and value provenance on the MIR of the adapt strategy and of the two estimator strategies; field-writer inventory."
 TRUSTED = ["rustc nightly MIR", "nutsfacts extractor", "rules/c09.py, rules/rel.py"]
 TECHNIQUE = "static analysis: control-dependence edge relations + value provenance + field-writer inventory on MIR"
